@@ -6,8 +6,10 @@ STUB_NOTES = ['operator new modelled (not reached for two-limb results)']
 def jobs(tier):
     J = []
     HS = [('h_cmp', 'compare and the six relational operators agree with the integers')]
-    if tier == 'thorough':   # 128-bit carry chains (10+ min) and the shift paths through the storage union (spurious NULL dereferences under CBMC, reported as ENCODING-SUSPECT, never as a violation)
-        HS += [('h_addsub', 'a + b, a - b, -a are the integer results'), ('h_shift', '<<, >> and construction from int64/uint64 are exact')]
+    if tier == 'thorough':   # 128-bit carry chains: 10+ min
+        HS += [('h_addsub', 'a + b, a - b, -a are the integer results')]
+    # h_shift (<<, >>, construction) stays in harness.c but is not run: CBMC reports spurious NULL dereferences through bigint's storage union (the counterexamples do not
+    # reproduce natively = ENCODING-SUSPECT, exit 2), so it cannot be a registered job; the >> 0 defect it led to was found by the translation self-test (DESIGN 6.4)
     for h, d in HS:
         J.append(dict(id=h[2:], harness=h, props=['C04'], unwind=8, defs={}, timeout=2400, mem_gb=8, desc='bigint: ' + d, bound='all operands of up to two 64-bit limbs (see assumptions)'))
     return J
